@@ -331,13 +331,15 @@ fn run_project(sh: &mut Shard, files: &[String], rng: &mut Rng, every: usize, su
             let old = t[s..e].to_string();
             let mut cands: Vec<String> = vec!["zz_fresh".into(), old.to_ascii_uppercase(), "IF".into(), "1abc".into(), "a b".into(), "END_VAR".into(), "".into(), "DINT".into()];
             cands.extend(names.iter().filter(|n| **n != old).cloned());
+            // an existing name typed in another letter case than its declaration and references use (identifiers are case-insensitive)
+            cands.extend(names.iter().filter(|n| !n.eq_ignore_ascii_case(&old)).map(|n| if n.to_ascii_uppercase() != **n { n.to_ascii_uppercase() } else { n.to_ascii_lowercase() }).filter(|v| !names.contains(v)));
             for nn in cands {
                 k += 1;
                 if k % every != rng.usize(every.max(1)) % every.max(1) && every > 1 {
                     continue;
                 }
                 let case = json!({"files": files, "file": fi, "start": s, "end": e, "new_name": nn});
-                let class = if nn == "zz_fresh" { "fresh" } else if names.contains(&nn) { "existing-name" } else if nn.eq_ignore_ascii_case(&old) { "case-variant" } else { "invalid-or-keyword" };
+                let class = if nn == "zz_fresh" { "fresh" } else if names.contains(&nn) { "existing-name" } else if nn.eq_ignore_ascii_case(&old) { "case-variant" } else if names.iter().any(|n| n.eq_ignore_ascii_case(&nn)) { "existing-name-in-another-case" } else { "invalid-or-keyword" };
                 if !sh.begin(&format!("{suite}|{class}"), &case) {
                     continue;
                 }
